@@ -93,6 +93,7 @@ def bf_from_fn(bvs, fn):
     """Exact Boolean function of fn(int values of the given bit vectors), by enumeration over their (<= MAXV) input bits."""
     vs = set()
     for bv in bvs:
+        if not isinstance(bv, BV): return TOP
         for bit in bv.bits:
             if bit is TOP: return TOP
             vs |= set(bit.vs)
